@@ -101,7 +101,7 @@ func s2Report(c *fw.Case, prop string, e *engine.Exec, j *engine.Judgement) {
 	// shape class and coverage counters
 	var kinds []string
 	seen := map[string]bool{}
-	nSets, nRb, nMulti, nDel := 0, 0, 0, 0
+	nSets, nRb, nMulti, nDel, nSer := 0, 0, 0, 0, 0
 	for _, s := range e.Steps {
 		k := s.Kind
 		if s.Kind == "set" {
@@ -122,6 +122,10 @@ func s2Report(c *fw.Case, prop string, e *engine.Exec, j *engine.Judgement) {
 			}
 			if s.NoWait {
 				k += "+nowait"
+			}
+			if s.Serializable {
+				k += "+serializable"
+				nSer++
 			}
 		}
 		if s.Kind == "rollback" {
@@ -160,6 +164,7 @@ func s2Report(c *fw.Case, prop string, e *engine.Exec, j *engine.Judgement) {
 	c.Count("sets", int64(nSets))
 	c.Count("rollbacks", int64(nRb))
 	c.Count("multi_target_sets", int64(nMulti))
+	c.Count("serializable_sets", int64(nSer))
 	c.Count("store_and_device_events", int64(len(e.W.Events())))
 	if e.GoalReached {
 		c.Count("executions_reaching_final_state", 1)
